@@ -321,7 +321,7 @@ C02_SoftNeverSkips ==
 C02_FromEmptyNeverRaises == mpc # "raised"
 
 (* C03 *)
-C03_Clean == Terminated => queue = <<>> /\ \A w \in Workers : wpc[w] = "exited"
+C03_Clean == Terminated => queue = <<>> /\ \A w \in Workers : wpc[w] \in {"exited", "none"}   \* "none": never started
 (* model-level: every item put on the queue was acknowledged, so that the queue can be joined again *)
 M_QueueJoinable == Terminated => unfinished = 0
 C03_Terminates == <>Terminated
